@@ -9,6 +9,12 @@ import z3
 from .values import R, I
 
 Z3_TIMEOUT_MS = int(os.environ.get("PYVC_Z3_TIMEOUT_MS", "10000"))
+
+
+def _ms(x):
+    """solver budgets are wall-clock: a task whose obligation timed out is re-run by the harness with PYVC_TIMEOUT_FACTOR > 1
+    (serially), so that a busy machine delays a verdict instead of flipping it"""
+    return int(x * float(os.environ.get("PYVC_TIMEOUT_FACTOR", "1")))
 CVC5_TIMEOUT_S = int(os.environ.get("PYVC_CVC5_TIMEOUT_S", "10"))
 
 # z3's LP-based tightening of monomial bounds (nla::monomial_bounds::tighten_lp) can spend unbounded time in big-rational
@@ -142,7 +148,7 @@ def congruence_facts(eng, formulas, hyps):
             parts = getattr(eng, "extent_parts", {}).get(n.get_id()) or (list(n.children()) if z3.is_add(n) else None)
             if parts and 2 <= len(parts) <= 10:
                 s = z3.Solver()
-                s.set("timeout", 2000)
+                s.set("timeout", _ms(2000))
                 s.add(*hyps)
                 s.add(z3.Not(z3.And(*[p >= 0 for p in parts])))
                 if s.check() != z3.unsat:
@@ -178,7 +184,7 @@ def congruence_facts(eng, formulas, hyps):
                     continue            # different extents: no congruence (keeps the pass linear in practice)
                 j = z3.Int(f"cg!{t1.get_id()}!{t2.get_id()}")
                 s = z3.Solver()
-                s.set("timeout", 3000)
+                s.set("timeout", _ms(3000))
                 s.add(*hyps)
                 s.add(*facts)
                 body_eq = z3.Select(t1.arg(1), j) == z3.Select(t2.arg(1), j)
@@ -191,7 +197,7 @@ def congruence_facts(eng, formulas, hyps):
                 # R3 (monotonicity): forall j. f(j) <= g(j)  =>  Sum f <= Sum g   (and symmetrically)
                 for (x, y) in ((t1, t2), (t2, t1)):
                     s = z3.Solver()
-                    s.set("timeout", 3000)
+                    s.set("timeout", _ms(3000))
                     s.add(*hyps)
                     s.add(*facts)
                     s.add(z3.Not(z3.And(n1 == n2, z3.Implies(z3.And(j >= 0, j < n1), z3.Select(x.arg(1), j) <= z3.Select(y.arg(1), j)))))
@@ -203,7 +209,7 @@ def congruence_facts(eng, formulas, hyps):
                 n = t.arg(0)
                 j = z3.Int(f"bd!{t.get_id()}")
                 s = z3.Solver()
-                s.set("timeout", 3000)
+                s.set("timeout", _ms(3000))
                 s.add(*hyps)
                 body = z3.Select(t.arg(1), j)
                 s.add(z3.Not(z3.Implies(z3.And(j >= 0, j < n), z3.And(body >= 0, body <= 1))))
@@ -233,7 +239,7 @@ def application_hints(eng, hyps, goal, ax, budget_pairs=400, budget_s=12.0):
                 t1, t2 = terms[a], terms[b]
                 pairs += 1
                 s = z3.Solver()
-                s.set("timeout", 400)
+                s.set("timeout", _ms(400))
                 s.add(*hyps)
                 s.add(*ax)
                 s.add(*hints)
@@ -292,7 +298,7 @@ def prune_ites(hyps, goal, limit=80):
     for c in conds:
         for val, neg in ((z3.BoolVal(True), z3.Not(c)), (z3.BoolVal(False), c)):
             s = z3.Solver()
-            s.set("timeout", 600)
+            s.set("timeout", _ms(600))
             s.add(*hyps)
             s.add(neg)
             if s.check() == z3.unsat:
@@ -336,7 +342,7 @@ def abstraction_tactic(eng, hyps, goal, ax, timeout_ms):
                 if cl[0] != t.decl().name() or (fp is not None and cl[3] is not None and cl[3] != fp):
                     continue
                 s = z3.Solver()
-                s.set("timeout", 1500)
+                s.set("timeout", _ms(1500))
                 s.add(*cur_hyps)
                 s.add(z3.Not(z3.And(*[t.arg(k) == cl[1].arg(k) for k in range(t.num_args())])))
                 if s.check() == z3.unsat:
@@ -352,7 +358,7 @@ def abstraction_tactic(eng, hyps, goal, ax, timeout_ms):
         subst_all += mapping
         cur_goal = prune_ites(cur_hyps, cur_goal)
     s = z3.Solver()
-    s.set("timeout", timeout_ms)
+    s.set("timeout", _ms(timeout_ms))
     s.add(*cur_hyps)
     s.add(z3.Not(cur_goal))
     return s.check() == z3.unsat
@@ -404,7 +410,7 @@ def discharge(eng, name, hyps, goal, meta=None, timeout_ms=None):
     if meta.get("kind") == "canary":
         timeout_ms = 1500
     s = z3.Solver()
-    s.set("timeout", timeout_ms or Z3_TIMEOUT_MS)
+    s.set("timeout", _ms(timeout_ms or Z3_TIMEOUT_MS))
     s.add(*hyps)
     s.add(*ax)
     s.add(*cg)
@@ -427,7 +433,7 @@ def discharge(eng, name, hyps, goal, meta=None, timeout_ms=None):
                 return Result(name, "proved", "z3-reduction-abstraction", time.time() - t0, meta=_meta_out(meta))
         except z3.Z3Exception:
             pass
-    s.set("timeout", min(timeout_ms or Z3_TIMEOUT_MS, 4000))
+    s.set("timeout", _ms(min(timeout_ms or Z3_TIMEOUT_MS, 4000)))
     r = s.check()
     if r == z3.unknown and not heavy_present:
         # second attempt: abstraction of the special-function applications into classes with provably equal arguments
@@ -436,7 +442,7 @@ def discharge(eng, name, hyps, goal, meta=None, timeout_ms=None):
                 return Result(name, "proved", "z3-abstraction", time.time() - t0, meta=_meta_out(meta))
         except z3.Z3Exception:
             pass
-        s.set("timeout", timeout_ms or Z3_TIMEOUT_MS)
+        s.set("timeout", _ms(timeout_ms or Z3_TIMEOUT_MS))
         r = s.check()
     if r == z3.unknown and cg:
         # reductions as opaque reals: with the congruence / split facts in place the remaining goal is plain arithmetic over them
@@ -477,7 +483,7 @@ def reduction_abstraction(hyps, ax, cg, goal, timeout_ms):
         return False
     fs = [z3.simplify(z3.substitute(f, *subs)) for f in fs]
     s = z3.Solver()
-    s.set("timeout", min(timeout_ms, 20000))
+    s.set("timeout", _ms(min(timeout_ms, 20000)))
     s.add(*fs)
     return s.check() == z3.unsat
 
@@ -487,8 +493,8 @@ def run_cvc5(smt2, tlimit_s):
         f.write("(set-logic ALL)\n" + smt2)
         path = f.name
     try:
-        p = subprocess.run(["/usr/bin/cvc5", "--lang=smt2", f"--tlimit={tlimit_s * 1000}", "--strings-exp", path],
-                           capture_output=True, text=True, timeout=tlimit_s + 5)
+        p = subprocess.run(["/usr/bin/cvc5", "--lang=smt2", f"--tlimit={_ms(tlimit_s * 1000)}", "--strings-exp", path],
+                           capture_output=True, text=True, timeout=_ms(tlimit_s * 1000) / 1000 + 5)
         out = (p.stdout + p.stderr).strip()
         first = out.splitlines()[0] if out else ""
         if first in ("sat", "unsat"):
@@ -533,7 +539,7 @@ def _pyval(v):
 
 def is_sat(hyps, timeout_ms=3000, eng=None):
     s = z3.Solver()
-    s.set("timeout", timeout_ms)
+    s.set("timeout", _ms(timeout_ms))
     s.add(*hyps)
     if eng is not None:
         s.add(*instantiate_axioms(eng, hyps))
